@@ -6,6 +6,7 @@ the writer model (`constantOf`, `listMax`, `neededBytes`).
 import JubakoModel.Model.DirWriter
 import JubakoModel.Generated.FuncsStats
 import JubakoModel.Lemmas.FuncsBytes
+import JubakoModel.Lemmas.FuncsDir
 
 namespace Jubako
 
@@ -66,5 +67,156 @@ theorem gen_propertySize (col : List Nat) :
   simp only [Int.natCast_zero] at h
   rw [h]
   simp [Generated.propertySizeBytes, gen_neededBytes, listMax]
+
+/-! ### `Property::process` folded over a column, then `Property::finalize` -/
+
+/-- the statistics pass over a column: `process` for every value, in order (`none` = the source panics:
+    a value whose type does not correspond to the property) -/
+def processColumn (p : Generated.SrcSchemaProp) : List Generated.SrcValue → Option Generated.SrcSchemaProp
+  | [] => some p
+  | v :: vs => (Generated.schemaPropertyProcess p v).bind (fun p' => processColumn p' vs)
+
+theorem constantOf_cast (col : List Nat) :
+    (constantOf (col.map (fun (v : Nat) => (v : Int)))).map Int.toNat = constantOf col := by
+  cases col with
+  | nil => rfl
+  | cons x xs =>
+    simp only [List.map_cons, constantOf]
+    have : (xs.map (fun (v : Nat) => (v : Int))).all (· = (x : Int)) = xs.all (· = x) := by
+      induction xs with
+      | nil => rfl
+      | cons y ys ih => simp [List.all_cons, ih, Int.ofNat_inj]
+    rw [this]
+    by_cases h : xs.all (· = x) <;> simp [h]
+
+theorem processColumn_uint (name : Bytes) (col : List Nat) (c : Generated.SrcCounter) (sz : Generated.SrcSize) :
+    processColumn (.unsignedInt c sz name) (col.map (fun (v : Nat) => Generated.SrcValue.unsigned (v : Int))) =
+      some (.unsignedInt ((col.map (fun (v : Nat) => (v : Int))).foldl Generated.valueCounterProcess c)
+        ((col.map (fun (v : Nat) => (v : Int))).foldl Generated.propertySizeProcess sz) name) := by
+  induction col generalizing c sz with
+  | nil => rfl
+  | cons v vs ih =>
+    simp only [List.map_cons, processColumn, Generated.schemaPropertyProcess, Option.bind_some, List.foldl_cons]
+    exact ih _ _
+
+/-- **Unsigned columns, end to end at source level**: running the translated `Property::process` over the
+    column and then the translated `Property::finalize` gives the layout property the writer model computes
+    (`finalizeProp`): width `needed_bytes(max)`, stored as a default exactly when the column is constant. -/
+theorem gen_finalize_uint (stores : List VStore) (keySize : Nat → Nat) (name : Bytes) (col : List Val)
+    (hcol : ∀ v ∈ col, ∃ n, v = .u n) :
+    ∃ p', processColumn (.unsignedInt .none (.auto 0) name) (col.map (fun v => Generated.SrcValue.unsigned (uintOf v : Int))) = some p' ∧
+      (finalizeProp stores ⟨name, .uint⟩ col).toSrc = some (Generated.schemaPropertyFinalize keySize p') := by
+  have hmap : col.map (fun v => Generated.SrcValue.unsigned (uintOf v : Int)) =
+      (col.map uintOf).map (fun (v : Nat) => Generated.SrcValue.unsigned (v : Int)) := by simp [List.map_map, Function.comp_def]
+  refine ⟨_, by rw [hmap]; exact processColumn_uint name (col.map uintOf) _ _, ?_⟩
+  have hc := gen_valueCounter ((col.map uintOf).map (fun (v : Nat) => (v : Int)))
+  have hs := gen_propertySize (col.map uintOf)
+  simp only [Generated.schemaPropertyFinalize, hc, hs, constantOf_cast]
+  unfold finalizeProp
+  cases hconst : constantOf (col.map uintOf) with
+  | none => simp [RawProp.toSrc]
+  | some d => simp [RawProp.toSrc]
+
+theorem size_fold_int (col : List Int) (sz : Generated.SrcSize) (f : Int → Int) :
+    (col.map f).foldl Generated.propertySizeProcess sz = col.foldl (fun a v => Generated.propertySizeProcess a (f v)) sz := by
+  induction col generalizing sz with
+  | nil => rfl
+  | cons v vs ih => simp [List.foldl_cons, ih]
+
+theorem processColumn_sint (name : Bytes) (col : List Int) (c : Generated.SrcCounter) (sz : Generated.SrcSize) :
+    processColumn (.signedInt c sz name) (col.map Generated.SrcValue.signed) =
+      some (.signedInt (col.foldl Generated.valueCounterProcess c)
+        ((col.map Generated.signedSizeKey).foldl Generated.propertySizeProcess sz) name) := by
+  induction col generalizing c sz with
+  | nil => rfl
+  | cons v vs ih =>
+    simp only [List.map_cons, processColumn, Generated.schemaPropertyProcess, Option.bind_some, List.foldl_cons]
+    exact ih _ _
+
+/-- **Signed columns, end to end at source level** (values within `i64`): width from the translated
+    `signed_size_key`, default when constant. -/
+theorem gen_finalize_sint (stores : List VStore) (keySize : Nat → Nat) (name : Bytes) (col : List Val)
+    (hrange : ∀ v ∈ col, -(2 : Int) ^ 63 ≤ sintOf v ∧ sintOf v < (2 : Int) ^ 63) :
+    ∃ p', processColumn (.signedInt .none (.auto 0) name) (col.map (fun v => Generated.SrcValue.signed (sintOf v))) = some p' ∧
+      (finalizeProp stores ⟨name, .sint⟩ col).toSrc = some (Generated.schemaPropertyFinalize keySize p') := by
+  have hmap : col.map (fun v => Generated.SrcValue.signed (sintOf v)) = (col.map sintOf).map Generated.SrcValue.signed := by
+    simp [List.map_map, Function.comp_def]
+  refine ⟨_, by rw [hmap]; exact processColumn_sint name (col.map sintOf) _ _, ?_⟩
+  have hkeys : (col.map sintOf).map Generated.signedSizeKey =
+      (col.map (fun v => signedSizeKey (sintOf v))).map (fun (n : Nat) => (n : Int)) := by
+    simp only [List.map_map]
+    apply List.map_congr_left
+    intro v hv
+    obtain ⟨h1, h2⟩ := hrange v hv
+    simp [Function.comp_def, gen_signedSizeKey (sintOf v) h1 h2]
+  have hc := gen_valueCounter (col.map sintOf)
+  have hs := gen_propertySize (col.map (fun v => signedSizeKey (sintOf v)))
+  simp only [Generated.schemaPropertyFinalize, hc, hkeys, hs]
+  unfold finalizeProp
+  cases hconst : constantOf (col.map sintOf) with
+  | none => simp [RawProp.toSrc]
+  | some d => simp [RawProp.toSrc]
+
+theorem processColumn_content (name : Bytes) (col : List (Nat × Nat)) (c : Generated.SrcCounter) (ps cs : Generated.SrcSize) :
+    processColumn (.contentAddress c ps cs name) (col.map (fun x => Generated.SrcValue.content ((x.1 : Int), (x.2 : Int)))) =
+      some (.contentAddress ((col.map (fun x => (x.1 : Int))).foldl Generated.valueCounterProcess c)
+        ((col.map (fun x => (x.1 : Int))).foldl Generated.propertySizeProcess ps)
+        ((col.map (fun x => (x.2 : Int))).foldl Generated.propertySizeProcess cs) name) := by
+  induction col generalizing c ps cs with
+  | nil => rfl
+  | cons v vs ih =>
+    simp only [List.map_cons, processColumn, Generated.schemaPropertyProcess, Option.bind_some, List.foldl_cons]
+    exact ih _ _ _
+
+/-- **Content-address columns, end to end at source level**: pack-id and content-id widths, the pack id
+    stored as a default exactly when it is the same for every entry. -/
+theorem gen_finalize_content (stores : List VStore) (keySize : Nat → Nat) (name : Bytes) (col : List Val) :
+    ∃ p', processColumn (.contentAddress .none (.auto 0) (.auto 0) name)
+        (col.map (fun v => Generated.SrcValue.content ((packOf v : Int), (cidOf v : Int)))) = some p' ∧
+      (finalizeProp stores ⟨name, .content⟩ col).toSrc = some (Generated.schemaPropertyFinalize keySize p') := by
+  have hmap : col.map (fun v => Generated.SrcValue.content ((packOf v : Int), (cidOf v : Int))) =
+      (col.map (fun v => (packOf v, cidOf v))).map (fun x => Generated.SrcValue.content ((x.1 : Int), (x.2 : Int))) := by
+    simp [List.map_map, Function.comp_def]
+  refine ⟨_, by rw [hmap]; exact processColumn_content name _ _ _ _, ?_⟩
+  have e1 : (col.map (fun v => (packOf v, cidOf v))).map (fun x => (x.1 : Int)) = (col.map packOf).map (fun (n : Nat) => (n : Int)) := by
+    simp [List.map_map, Function.comp_def]
+  have e2 : (col.map (fun v => (packOf v, cidOf v))).map (fun x => (x.2 : Int)) = (col.map cidOf).map (fun (n : Nat) => (n : Int)) := by
+    simp [List.map_map, Function.comp_def]
+  have hc := gen_valueCounter ((col.map packOf).map (fun (n : Nat) => (n : Int)))
+  have hp := gen_propertySize (col.map packOf)
+  have hcs := gen_propertySize (col.map cidOf)
+  simp only [Generated.schemaPropertyFinalize, e1, e2, hc, hp, hcs, constantOf_cast]
+  unfold finalizeProp
+  cases hconst : constantOf (col.map packOf) with
+  | none => simp [RawProp.toSrc]
+  | some d => simp [RawProp.toSrc]
+
+theorem processColumn_array (name : Bytes) (fixed st : Nat) (col : List Nat) (sz : Generated.SrcSize) :
+    processColumn (.array sz fixed st name) (col.map (fun (n : Nat) => Generated.SrcValue.array (n : Int))) =
+      some (.array ((col.map (fun (n : Nat) => (n : Int))).foldl Generated.propertySizeProcess sz) fixed st name) := by
+  induction col generalizing sz with
+  | nil => rfl
+  | cons v vs ih =>
+    simp only [List.map_cons, processColumn, Generated.schemaPropertyProcess, Option.bind_some, List.foldl_cons]
+    exact ih _
+
+/-- **Array columns (inline prefix and / or value-store remainder), end to end at source level**: length
+    field sized by the longest array, key size of the value store, inline prefix length. -/
+theorem gen_finalize_array (stores : List VStore) (name : Bytes) (fixed st : Nat) (col : List Val)
+    (hf : fixed < 256) (hind : ¬ (fixed = 0 ∧ (stores.getD st ⟨false, []⟩).indexed)) :
+    ∃ p', processColumn (.array (.auto 0) fixed st name)
+        (col.map (fun v => Generated.SrcValue.array (((arrayOf v).length : Nat) : Int))) = some p' ∧
+      (finalizeProp stores ⟨name, .array fixed st⟩ col).toSrc =
+        some (Generated.schemaPropertyFinalize (fun s => (stores.getD s ⟨false, []⟩).keySize) p') := by
+  have hmap : col.map (fun v => Generated.SrcValue.array (((arrayOf v).length : Nat) : Int)) =
+      (col.map (fun v => (arrayOf v).length)).map (fun (n : Nat) => Generated.SrcValue.array (n : Int)) := by
+    simp [List.map_map, Function.comp_def]
+  refine ⟨_, by rw [hmap]; exact processColumn_array name fixed st _ _, ?_⟩
+  have hs := gen_propertySize (col.map (fun v => (arrayOf v).length))
+  simp only [Generated.schemaPropertyFinalize, hs]
+  unfold finalizeProp
+  simp only []
+  rw [if_neg hind]
+  simp [RawProp.toSrc, Nat.mod_eq_of_lt hf]
 
 end Jubako
